@@ -80,4 +80,36 @@ def noOverlapA (w : Which) : List Schema → String → Nat → Bool
 termination_by structural l => l
 end
 
+
+/- the paths the walker visits below (and including) `path`, in the order it visits them -/
+mutual
+def pathsOf (w : Which) : Schema → String → List String
+  | .mk _ itemsS itemsT addItemsS props patProps addPropsS _ allOf _ _ _, path =>
+    path ::
+    ((match itemsS with | some s => pathsOf w s (path ++ ".items." ++ w.suffix) | none => [])
+    ++ pathsOfL w itemsT path 0
+    ++ (match addItemsS with | some s => pathsOf w s (path ++ ".additionalItems") | none => [])
+    ++ pathsOfM w props path ++ pathsOfM w patProps path
+    ++ (match addPropsS with | some s => pathsOf w s (path ++ ".additionalProperties") | none => [])
+    ++ pathsOfA w allOf path 0)
+termination_by structural s => s
+def pathsOfL (w : Which) : List Schema → String → Nat → List String
+  | [], _, _ => []
+  | s :: ss, path, i => pathsOf w s (path ++ ".items[" ++ toString i ++ "]." ++ w.suffix) ++ pathsOfL w ss path (i + 1)
+termination_by structural l => l
+def pathsOfM (w : Which) : List (String × Schema) → String → List String
+  | [], _ => []
+  | (name, s) :: ps, path => pathsOf w s (path ++ "." ++ name) ++ pathsOfM w ps path
+termination_by structural l => l
+def pathsOfA (w : Which) : List Schema → String → Nat → List String
+  | [], _, _ => []
+  | s :: ss, path, i => pathsOf w s (path ++ ".allOf[" ++ toString i ++ "]") ++ pathsOfA w ss path (i + 1)
+termination_by structural l => l
+end
+
+/-- the walker's bookkeeping cannot cut anything off: no walked path triggers the suffix heuristic, no two walked
+    locations render to the same path, none was visited before -/
+def Unambiguous (w : Which) (s : Schema) (path : String) (vis : List String) : Prop :=
+  noOverlap w s path = true ∧ (pathsOf w s path).Nodup ∧ ∀ p ∈ pathsOf w s path, p ∉ vis
+
 end VM.Sw
